@@ -23,6 +23,7 @@ UNIT = dict(
         ],
     ),
     extract=[
+        dict(id="Event::is_empty", kind="fn", src="crates/events/src/event.rs", impl="impl Event", name="is_empty"),
         dict(id="Priority", kind="type", src=E + "event.rs", name="Priority", structural=True),
         dict(id="Source", kind="type", src=E + "event.rs", name="Source", structural=True),
         dict(id="Keyboard", kind="type", src=E + "keyboard.rs", name="Keyboard", structural=True),
